@@ -17,8 +17,9 @@ import os
 import vlib
 from framework import graph_replay, replay_tlc_trace
 
-ALL_MODES = ["fn", "fnsync", "retfut", "async", "asyncsync", "setval", "setexc", "late", "init"]
-ALL_KINDS = ["val", "exc", "drop", "dtor"]
+ALL_MODES = ["fn", "fnsync", "retfut", "async", "asyncsync", "setval", "setexc", "factthrow", "late", "init"]
+# unwind: the promise is a local of the producer and is destroyed by stack unwinding (the producer throws before resolving)
+ALL_KINDS = ["val", "exc", "drop", "dtor", "unwind"]
 # blocking entry points of shared_future bound to the blocking waiter of the specification (BeginWait(h, form)):
 # wait() / sync() then value() / force_sync() / join() / force_wait() -- the force_ forms on a thread in coroutine mode
 ALL_FORMS = ["wait", "syncval", "fsync", "join", "fwait"]
@@ -85,7 +86,8 @@ def constants(H, modes, kinds, co=(), bl=(), cb=(), po=(), copies=1, handles=2, 
             "BlForms": sset(forms), "FormShift": str(shift), "FreeForms": "TRUE" if free else "FALSE"}
 
 
-ALL_WAYS = ["shl", "shlready", "assign"]
+ALL_WAYS = ["shl", "shlready", "shlreadyexc", "shlreadynone", "shlthrows", "assign"]
+READY_WAYS = ["shlready", "shlreadyexc", "shlreadynone", "shlthrows"]
 
 
 def run_cfg(ctx, rp, tag, H, modes, kinds, co=(), bl=(), cb=(), po=(), copies=1, handles=2, max_paths=None,
@@ -205,7 +207,7 @@ def run(ctx):
         run_cfg(ctx, rp, "s1", h1, modes, ALL_KINDS, co=h1, bl=h1, po=h1, copies=1, handles=2, max_paths=3000, must=seq_must)
         run_cfg(ctx, rp, "s2", h1, ["fn", "late", "setval"], ["val", "drop"], cb=h1, bl=h1, copies=1, handles=2, must=["BeginCb"], shift=1)
         # two handle threads: drop of the last handle against the resolver's chain walk / tracer release
-        kinds = [ALL_KINDS[ctx.seed % 4]]
+        kinds = [ALL_KINDS[ctx.seed % len(ALL_KINDS)]]
         run_cfg(ctx, rp_asan, "c1", h2, ["fn"], kinds, co=["h1"], bl=["h2"], copies=1, handles=1, must=["Copy"], env=asan_env, shift=2)
         # (init: copies exist before get_promise(); the earlier copies' awaiters must be released with the result)
         run_cfg(ctx, rp, "c2", h2, ["retfut", "async", "init"], ["val"], co=["h2"], po=["h1"], copies=1, handles=1, must=["GetPromise"])
@@ -216,14 +218,20 @@ def run(ctx):
         # holders, sanitized: the blocked thread may hold the last handle and drops it right after its call has
         # returned, against the resolver's chain walk releasing the tracer (the other configurations rotate the form)
         run_cfg(ctx, rp, "f1", h1, ["fn", "setexc"], ALL_KINDS, bl=h1, copies=0, handles=1, free=True, max_paths=1000)
-        run_cfg(ctx, rp_asan, "f2", h2, ["fn"], [ALL_KINDS[(ctx.seed + 1) % 4]], bl=["h2"], copies=1, handles=1,
+        run_cfg(ctx, rp_asan, "f2", h2, ["fn"], [ALL_KINDS[(ctx.seed + 1) % len(ALL_KINDS)]], bl=["h2"], copies=1, handles=1,
                 must=["Copy"], env=asan_env, free=True)
         tlc_only(ctx, "live", h2, ["fn", "late"], kinds, co=["h1"], bl=["h2"], cb=["h2"], copies=1, handles=1)
         # rounds: a resolved state re-armed (operator<< pending / ready, assignment of a new shared_future) for a second
         # and third round, copies / awaiters / drops in every round
-        run_cfg(ctx, rp, "r1", h1, ["fn", "setval"], ["val", "drop"], co=h1, copies=1, handles=2, rounds=3, ways=ways,
+        run_cfg(ctx, rp, "r1", h1, ["fn", "setval"], ["val", "drop"], co=h1, copies=1, handles=2, rounds=3,
+                ways=[x for x in ways if x in ("shl", "shlready", "assign")],
                 must=["ReArmAssign"] + (["ReArmShl"] if shl_fixed else []), max_paths=1000)
         if shl_fixed:
+            # every outcome of the factory of `f << factory` in every round: a ready future with a value / an exception /
+            # no value, or the factory THROWS (result_of's catch path) -- over a previous round that left a value, an
+            # exception or nothing: the previous content is destroyed exactly once, the tracer is not wired
+            run_cfg(ctx, rp, "r3", h1, ["setval", "factthrow", "fn"], ["val", "unwind"], co=h1, copies=0, handles=1, rounds=3,
+                    ways=READY_WAYS, must=["ReArmShl"])
             run_cfg(ctx, rp, "r2", h2, ["fn"], ["val"], co=["h1"], bl=["h2"], copies=1, handles=1, rounds=2, ways=["shl"],
                     must=["ReArmShl"], max_paths=500, shift=1)
         # sanitized replays (this one and c1; no weak_ptr probe): a touch of the state after the last reference is gone
